@@ -112,7 +112,7 @@ def cards_field(slots, board):
 def c17_case(draw):
     game = draw(st.sampled_from(['FT', 'NT', 'NT']))
     n = draw(st.integers(2, 6))
-    bb = draw(st.sampled_from([2, 4, 10, 100]))
+    bb = draw(st.sampled_from([2, 4, 10, 100, 20000]))
     stack = draw(st.sampled_from([bb, 2 * bb + 1, 5 * bb, 20 * bb,
                                   100 * bb]))
     cfg = dict(
@@ -136,6 +136,7 @@ def c17_case(draw):
     )
     tape = draw(gen.tapes(90))
     return dict(config=cfg, tape=tape,
+                compression=draw(st.sampled_from([True, True, False])),
                 truncate=draw(st.one_of(st.none(), st.none(),
                                         st.integers(0, 50))))
 
@@ -182,12 +183,17 @@ def check(case, stats):
             terminal = not s.status
             ops = list(s.operations)
             raked = bool(cfg.get('rake'))
+            comp = case.get('compression', True)
+            if not comp:
+                # dealing lines kept as dealt (no merging/sorting by seat)
+                stats.count('class:uncompressed_history')
             if raked and terminal:
                 stats.count('class:raked_with_finishing_stacks')
                 h = HandHistory.from_game_state(
-                    s._pkv_game, s, hand=7, finishing_stacks=list(s.stacks))
+                    s._pkv_game, s, comp, hand=7,
+                    finishing_stacks=list(s.stacks))
             else:
-                h = HandHistory.from_game_state(s._pkv_game, s, hand=7)
+                h = HandHistory.from_game_state(s._pkv_game, s, comp, hand=7)
             # ---- Pluribus ------------------------------------------------
             actions, hole, _, board, _ = render(ops, n, variant)
             line = None
